@@ -160,6 +160,36 @@ def mc_cfg(part, quick):
 PARTS = ['da', 'db', 'uni', 'enc', 'num', 'gc']
 
 
+def calendar_stage(ctx):
+    """Growth item (not part of the statement of C10, reported separately in the evidence): Utility's calendar functions.
+    M1: MC_Calendar checks that day / date are mutually inverse bijections on the model and enumerates dates, day numbers and
+    date strings; M2: drv_cal executes them; M3: Trace_Calendar decides every observation exactly against Calendar.tla."""
+    dense = 'FALSE' if ctx.quick else 'TRUE'
+    cfg = ctx.cfg('MC_Calendar', 'INIT Init\nNEXT Next\nCONSTANTS NChunks = 16 Dense = %s\nINVARIANTS DayInv DateInv StrInv Emit\nCHECK_DEADLOCK FALSE\n' % dense)
+    vals = ctx.generate('MC_Calendar', cfg, workers=8, timeout=3000, heap='2g')
+    rows = []
+    for v in vals:
+        if v[0] in ('day', 'date'):
+            rows.append(v)
+        elif v[0] == 'str':
+            rows.append(['str'] + list(v[1]))
+    if len(rows) < 5000:
+        raise vlib.FrameworkError('MC_Calendar emitted %d vectors' % len(rows))
+    vin = ctx.path('cal-vectors.txt')
+    vlib.write_lines(vin, rows)
+    exe = vlib.build_driver('drv_cal', 'plain' if ctx.quick else 'san')
+    trace = ctx.path('trace-cal.ndjson')
+    rc, err = ctx.drive(exe, ['replay'], infile=vin, outfile=trace)
+    if rc != 0:
+        ctx.violation('calendar driver failed (rc=%d): %s' % (rc, err[-600:]), [{'e': 'ReplayHeader', 'property': ctx.pid, 'law': 'no-crash', 'vectors': vin}])
+        return
+    n, rej = ctx.validate('Trace_Calendar', 'Trace_Calendar', trace, shards=8, group_key=None)
+    ctx.cov['traces_validated_against_impl'] += 1
+    ctx.cov['behaviours_replayed'] += len(rows)
+    ctx.cov['laws']['calendar'] = {'vectors': len(rows), 'lines': n}
+    ctx.report_rejects(rej, trace)
+
+
 def run(ctx):
     quick = ctx.quick
     exe = vlib.build_driver('drv_dms', 'plain')
@@ -199,8 +229,10 @@ def run(ctx):
         return tf, ctx.validate('Trace_DMS', 'Trace_DMS', tf, shards=8 if quick else vlib.NCPU, group_key=None)
     with cf.ThreadPoolExecutor(3) as ex:
         ftool = ex.submit(tool_stage, ctx, vals)
+        fcal = ex.submit(calendar_stage, ctx)
         results = list(ex.map(validate, traces))
         ftool.result()
+        fcal.result()
     for tf, (n, rej) in results:
         ctx.cov['traces_validated_against_impl'] += 1
         ctx.report_rejects(rej, tf)
